@@ -58,6 +58,8 @@ TreeCases ==
    Tree(<<Lay, F("home", "@use(\"~main\")@insert(\"a\", 0)@insert(\"p\", 1)@insert(\"q\", 2)@insert(\"r\", 3)@insert(\"s\", 4)")>>, "home", "undefined-inserts"),
    Tree(<<Card, F("home", "@component(\"~card\", {n: 1})@slot(\"x\")1@end@slot(\"x\")2@end@slot(\"y\")3@end@slot(\"y\")4@end@end")>>, "home", "duplicate-slots"),
    Tree(<<Card, F("home", "@component(\"~card\", {n: 1})@slot(\"x\")1@end@slot(\"y\")3@end@slot(\"y\")4@end@slot(\"x\")2@end@slot(\"x\")5@end@end")>>, "home", "duplicate-slots"),
+   Tree(<<Card, F("home", "@component(\"~card\", {n: 1})@slot(\"p\")1@end@slot(\"q\")2@end@slot(\"r\")3@end@slot(\"s\")4@end@end")>>, "home", "unknown-slots"),
+   Tree(<<Card, F("home", "@component(\"~card\", {n: 1})@slot(\"x\")0@end@slot(\"q\")2@end@slot(\"p\")1@end@slot3@end@end")>>, "home", "unknown-slots"),
    Tree(<<F("a", "@if("), F("b", "{{ 1 + }}"), F("c", "@each(x on y)@end"), F("d", "ok")>>, "d", "faulty-files"),
    Tree(<<F("a", "@use(\"ghost\")"), F("b", "@component(\"phantom\")"), F("c", "{{ ~ }}"), F("sub/d", "{{ \"x }}"), F("e", "fine")>>, "e", "faulty-files"),
    Tree(<<Card, F("home", "@component(\"~card\", {n: zz, m: yy, k: 1 / 0})")>>, "home", "failing-arguments"),
